@@ -66,12 +66,18 @@ def rule_l1(ctx, facts, rule="L1", only=None):
                         continue
                     for a in c.args:
                         x = op_root(a)
-                        if x is None or b.ty(x).get("base") not in ("reclaim::Shared", "node::Node", "node::TreeNode", "node::TreeBin", "node::BinEntry", "seize::Linked"):
+                        if x is None or b.ty(x).get("base") not in ("reclaim::Shared", "node::Node", "node::TreeNode", "node::TreeBin", "node::BinEntry",
+                                                                    "seize::Linked", "reclaim::Atomic"):
                             continue
                         for rt in fl.roots_at(x, c.point):
                             if rt[0] != "call":
                                 continue
                             rc = b.call_at(rt[1])
+                            if rc is not None and rc.point not in r.points and not held_regions_at(b, rc.point) and is_finder(facts, rc) \
+                                    and dominates(b, rc.point, r.call.point):
+                                bad = (c.point, "use of a node found before the lock",
+                                       "works on the node that %s returned at %s before the lock was taken: by the time the section runs that node may have "
+                                       "been removed and replaced (stale)" % (strip_generics(rc.resolved).rsplit("::", 1)[-1], rc.span))
                             if is_link_load(rc) == "load" and rc.point not in r.points and not held_regions_at(b, rc.point):
                                 f = receiver_field(b, rc, 0)
                                 if f and all(adt.startswith("node::") for adt, _ in f) and dominates(b, rc.point, r.call.point):
